@@ -98,7 +98,7 @@ func ruleGlobals(c *Ctx, r *Report) {
 
 // ruleLockset: R-LOCKSET for ytypes.regexpCache.
 func ruleLockset(c *Ctx, r *Report) {
-	r.Rule("R-LOCKSET", "every access to a regexpCache map happens with the mutex paired with that map held (read: RLock or Lock; write: Lock), the map/mutex pair is selected consistently on every branch, and each lock is released by a deferred unlock", 4)
+	r.Rule("R-LOCKSET", "every access to a regexpCache map happens with the mutex paired with that map held (read: RLock or Lock; write: Lock), the map/mutex pair is selected consistently on every branch, and each lock is released by a deferred unlock", 3)
 	p := c.Pkg("ytypes")
 	if p == nil {
 		return
